@@ -363,3 +363,87 @@ package jen
 //@   loop 2 invariant [C16,C07] ordered: forall i int, j int :: { keys[i], keys[j] } (0 <= i && i < j && j < len(keys)) ==> keys[i] <= keys[j]
 //@   loop 2 invariant fresh: lookup > old(alloc) && lookup != nil && (len(keys) > 0 ==> keys.arr > old(alloc))
 //@   loop 2 invariant file: regpre(f) && Fof(f) == old(Fof(f)) && stable(old(mapof(f.imports)), mapof(f.imports))
+
+// ---- construct table (written from the README's description of each construct) ----
+// Each row is expanded by jvc into the contracts of every form of the construct:
+// (*Statement).N, N, (*Group).N and the NFunc variants (see /verif/DESIGN.md).
+
+//@ construct Parens kind=group open="(" close=")" sep="" multi=false name=parens
+//@ construct List kind=group open="" close="" sep="," multi=false name=list
+//@ construct Values kind=group open="{" close="}" sep="," multi=false name=values
+//@ construct Index kind=group open="[" close="]" sep=":" multi=false name=index
+//@ construct Block kind=group open="{" close="}" sep="" multi=true name=block
+//@ construct Defs kind=group open="(" close=")" sep="" multi=true name=defs
+//@ construct Call kind=group open="(" close=")" sep="," multi=false name=call
+//@ construct Params kind=group open="(" close=")" sep="," multi=false name=params
+//@ construct Assert kind=group open=".(" close=")" sep="" multi=false name=assert
+//@ construct Map kind=group open="map[" close="]" sep="" multi=false name=map
+//@ construct If kind=group open="if " close="" sep=";" multi=false name=if
+//@ construct Return kind=group open="return " close="" sep="," multi=false name=return
+//@ construct For kind=group open="for " close="" sep=";" multi=false name=for
+//@ construct Switch kind=group open="switch " close="" sep=";" multi=false name=switch
+//@ construct Interface kind=group open="interface{" close="}" sep="" multi=true name=interface
+//@ construct Struct kind=group open="struct{" close="}" sep="" multi=true name=struct
+//@ construct Case kind=group open="case " close=":" sep="," multi=false name=case
+//@ construct Append kind=group open="append(" close=")" sep="," multi=false name=append
+//@ construct Cap kind=group open="cap(" close=")" sep="," multi=false name=cap
+//@ construct Close kind=group open="close(" close=")" sep="," multi=false name=close
+//@ construct Clear kind=group open="clear(" close=")" sep="," multi=false name=clear
+//@ construct Min kind=group open="min(" close=")" sep="," multi=false name=min
+//@ construct Max kind=group open="max(" close=")" sep="," multi=false name=max
+//@ construct Complex kind=group open="complex(" close=")" sep="," multi=false name=complex
+//@ construct Copy kind=group open="copy(" close=")" sep="," multi=false name=copy
+//@ construct Delete kind=group open="delete(" close=")" sep="," multi=false name=delete
+//@ construct Imag kind=group open="imag(" close=")" sep="," multi=false name=imag
+//@ construct Len kind=group open="len(" close=")" sep="," multi=false name=len
+//@ construct Make kind=group open="make(" close=")" sep="," multi=false name=make
+//@ construct New kind=group open="new(" close=")" sep="," multi=false name=new
+//@ construct Panic kind=group open="panic(" close=")" sep="," multi=false name=panic
+//@ construct Print kind=group open="print(" close=")" sep="," multi=false name=print
+//@ construct Println kind=group open="println(" close=")" sep="," multi=false name=println
+//@ construct Real kind=group open="real(" close=")" sep="," multi=false name=real
+//@ construct Recover kind=group open="recover(" close=")" sep="," multi=false name=recover
+//@ construct Types kind=group open="[" close="]" sep="," multi=false name=types
+//@ construct Union kind=group open="" close="" sep="|" multi=false name=union
+//@ construct Break kind=token typ=keyword text="break"
+//@ construct Default kind=token typ=keyword text="default"
+//@ construct Func kind=token typ=keyword text="func"
+//@ construct Select kind=token typ=keyword text="select"
+//@ construct Chan kind=token typ=keyword text="chan"
+//@ construct Else kind=token typ=keyword text="else"
+//@ construct Const kind=token typ=keyword text="const"
+//@ construct Fallthrough kind=token typ=keyword text="fallthrough"
+//@ construct Type kind=token typ=keyword text="type"
+//@ construct Continue kind=token typ=keyword text="continue"
+//@ construct Var kind=token typ=keyword text="var"
+//@ construct Goto kind=token typ=keyword text="goto"
+//@ construct Defer kind=token typ=keyword text="defer"
+//@ construct Go kind=token typ=keyword text="go"
+//@ construct Range kind=token typ=keyword text="range"
+//@ construct Bool kind=token typ=identifier text="bool"
+//@ construct Byte kind=token typ=identifier text="byte"
+//@ construct Complex64 kind=token typ=identifier text="complex64"
+//@ construct Complex128 kind=token typ=identifier text="complex128"
+//@ construct Error kind=token typ=identifier text="error"
+//@ construct Float32 kind=token typ=identifier text="float32"
+//@ construct Float64 kind=token typ=identifier text="float64"
+//@ construct Int kind=token typ=identifier text="int"
+//@ construct Int8 kind=token typ=identifier text="int8"
+//@ construct Int16 kind=token typ=identifier text="int16"
+//@ construct Int32 kind=token typ=identifier text="int32"
+//@ construct Int64 kind=token typ=identifier text="int64"
+//@ construct Rune kind=token typ=identifier text="rune"
+//@ construct String kind=token typ=identifier text="string"
+//@ construct Uint kind=token typ=identifier text="uint"
+//@ construct Uint8 kind=token typ=identifier text="uint8"
+//@ construct Uint16 kind=token typ=identifier text="uint16"
+//@ construct Uint32 kind=token typ=identifier text="uint32"
+//@ construct Uint64 kind=token typ=identifier text="uint64"
+//@ construct Uintptr kind=token typ=identifier text="uintptr"
+//@ construct True kind=token typ=identifier text="true"
+//@ construct False kind=token typ=identifier text="false"
+//@ construct Iota kind=token typ=identifier text="iota"
+//@ construct Nil kind=token typ=identifier text="nil"
+//@ construct Err kind=token typ=identifier text="err"
+//@ construct Any kind=token typ=identifier text="any"
+//@ construct Comparable kind=token typ=identifier text="comparable"
